@@ -680,9 +680,24 @@ def upd_twice(R: B3, W1: B2, W2: B2, r2_a: bool, L: LT, N: NT, C: CT) -> bool:
     pre: (W1[0] or W1[1]) and (W2[0] or W2[1])
     post: _
     """
+    return _twice(R, W1, W2, r2_a, False, L, N, C)
+
+
+def upd_twice_locked(R: B3, W1: B2, W2: B2, r2_a: bool, L: LT, N: NT, C: CT) -> bool:
+    """
+    pre: _pre((False,) * 6, None, L, N, C, True) and L[3] and not L[5] and not N[3] and not N[5]
+    pre: (W1[0] or W1[1]) and (W2[0] or W2[1])
+    post: _
+    """
+    return _twice(R, W1, W2, r2_a, True, L, N, C)
+
+
+def _twice(R, W1, W2, r2_a, lock, L, N, C):
     # One session, the same object updated twice with a commit() in between (the first UPDATE finds its row unchanged), then
     # an arbitrary current row at the second UPDATE.  R: a, n, g read before the first commit; W1: a, x assigned before it;
-    # W2: x, g assigned after it; r2_a: a is read again between the commits.
+    # W2: x, g assigned after it; r2_a: a is read again between the commits; lock: the object is fetched with get_for_update(),
+    # so the FIRST transaction holds a row lock (no optimistic terms in the first UPDATE) - commit() ends that lock, and the
+    # second UPDATE is an ordinary optimistic one again.
     # Asserted on the SECOND UPDATE: a term with the value read for every attribute in R that the session never overwrote
     # (reads are not forgotten by a save), S4 (matched => those unchanged; row as the session left it => matched), S5.
     from pony.orm import db_session, commit
@@ -728,7 +743,7 @@ def upd_twice(R: B3, W1: B2, W2: B2, r2_a: bool, L: LT, N: NT, C: CT) -> bool:
     try:
         with db_session:
             g_new = G[NEW_G]
-            obj = E.get(id=1)
+            obj = E.get_for_update(id=1) if lock else E.get(id=1)
             if R[0]: obj.a
             if R[1]: obj.n
             if R[2]: obj.g
@@ -761,6 +776,7 @@ def upd_twice(R: B3, W1: B2, W2: B2, r2_a: bool, L: LT, N: NT, C: CT) -> bool:
             if not _same(v, want_set[c]): why.append('SET value of %s in the second UPDATE' % c)
     if not terms or terms[0] != ('EQ', 'id', 1): why.append('first WHERE term is not the primary key')
     crit = terms[1:]
+    if lock and len(st['updates'][0][2]) != 1: why.append('first UPDATE of a locked object carries optimistic terms')
     required = []
     if R[0] and not W1[0]: required.append('a')
     if R[1]: required.append('n')
@@ -869,7 +885,7 @@ def track_step(i: int, kind: int, r_i: bool, w_i: bool, rest_r: bool, rest_w: bo
 
 
 MAIN = ['upd_w%02d' % k for k in range(16)]
-HARNESSES = MAIN + ['upd_nulls', 'upd_volatile', 'upd_float', 'upd_for_update', 'upd_pessimistic', 'upd_pg', 'upd_twice', 'track_step']
+HARNESSES = MAIN + ['upd_nulls', 'upd_volatile', 'upd_float', 'upd_for_update', 'upd_pessimistic', 'upd_pg', 'upd_twice', 'upd_twice_locked', 'track_step']
 
 
 def explain(fn, **kw):
